@@ -745,6 +745,67 @@ def histLine (s : HState) (toks : Array String) : HState × List Msg :=
       if toks[2]! == toks[3]! then (s, [{ cls := "OK", op := "reobserve", kind := "", detail := "" }])
       else (s, [{ cls := "SPEC-MISMATCH", op := "reobserve", kind := "digest", detail := s!"earlier frame {toks[1]!} changed: digest {toks[3]!} -> {toks[2]!}" }])
     else failL "D" "bad D line"
+  | some "KC" =>
+    -- the column's own Comparable on pairs of rows: Compare must be the spec's keyCmp (null against null: Equal iff
+    -- nulls are grouped, NotEqual otherwise)
+    match runP (do
+        let fid ← nat
+        let name ← bytes
+        let rev ← bool01
+        let gbn ← bool01
+        let nl ← bool01
+        let k ← nat
+        let ps ← many k (do let a ← nat; let b ← nat; let r ← int; return (a, b, r))
+        return (fid, name, rev, gbn, nl, ps)) toks 1 with
+    | .error e => failL "KC" e
+    | .ok (fid, name, rev, gbn, nl, ps) =>
+      match s.getFrame fid with
+      | some (some f) =>
+        match f.find? name with
+        | none => failL "KC" "unknown column"
+        | some c =>
+          let o : Order := { col := name, reverse := rev, nullLast := nl }
+          let bad := ps.findSome? (fun (a, b, r) =>
+            let ca := c.cells[a]!
+            let cb := c.cells[b]!
+            let want : Int :=
+              if ca.isNull && cb.isNull then (if gbn then 2 else 3)
+              else match keyCmp c o ca cb with
+                | .lt => 0
+                | .gt => 1
+                | .eq => 2
+            if r == want then none
+            else some s!"column {repr (bytesToString name)} rows {a},{b} (cells {showCell ca}, {showCell cb}) reverse={rev} groupByNull={gbn} nullLast={nl}: Compare returned {r}, the order of the keys says {want} (0 less, 1 greater, 2 equal, 3 not equal)")
+          match bad with
+          | none => (s, [{ cls := "OK", op := "keycmp", kind := "", detail := "" }])
+          | some w => (s, [{ cls := "SPEC-MISMATCH", op := "keycmp", kind := "value", detail := w }])
+      | _ => (s, [])
+  | some "KH" =>
+    -- rows with equal keys must have equal hashes (the table compares the stored hash before the key)
+    match runP (do
+        let fid ← nat
+        let name ← bytes
+        let gbn ← bool01
+        let _seed ← nat
+        let k ← nat
+        let hs ← many k (do let a ← nat; let h ← next; return (a, h))
+        return (fid, name, gbn, hs)) toks 1 with
+    | .error e => failL "KH" e
+    | .ok (fid, name, gbn, hs) =>
+      match s.getFrame fid with
+      | some (some f) =>
+        match f.find? name with
+        | none => failL "KH" "unknown column"
+        | some c =>
+          let bad := hs.findSome? (fun (a, ha) => hs.findSome? (fun (b, hb) =>
+            if a < b && keyEq gbn c c.cells[a]! c.cells[b]! && ha != hb then
+              some s!"column {repr (bytesToString name)} rows {a},{b} hold equal keys ({showCell c.cells[a]!}) but hash to {ha} and {hb} (groupByNull={gbn})"
+            else none))
+          match bad with
+          | none => (s, [{ cls := "OK", op := "keyhash", kind := "", detail := "" }])
+          | some w => (s, [{ cls := "SPEC-MISMATCH", op := "keyhash", kind := "value", detail := w }])
+      | _ => (s, [])
+  | some "KP" => (s, [{ cls := "SPEC-MISMATCH", op := "keycmp", kind := "panic", detail := "Comparable.Compare / Hash panicked" }])
   | some "Q" =>
     match runP (do
         let a ← nat
